@@ -173,6 +173,15 @@ class TitanRequest(BaseRequest):
         if not line.startswith("titan://"):
             raise ValueError("Titan URL must start with titan://")
 
+        # Fragments and user-info are forbidden as in Gemini URLs. They are
+        # checked on the whole line: a ';' inside the user-info or a '#' behind
+        # the parameters would otherwise escape parse_url(), which only sees
+        # the part in front of the first semicolon.
+        if "#" in line:
+            raise ValueError(f"URL must not contain fragment: {line}")
+        if "@" in line[len("titan://") :].split("/", 1)[0]:
+            raise ValueError(f"URL must not contain userinfo (user:password): {line}")
+
         # Split URL from parameters at first semicolon
         if ";" not in line:
             raise ValueError("Titan URL must contain parameters (;size=...)")
